@@ -96,14 +96,28 @@ func readScripts(path string) ([]wscript, error) {
 }
 
 // runScript executes one script. side = "client": the waiting session is the dialled one; "server": the accepted one.
-func runScript(t *testing.T, s wscript, side string, sum *summary, tf *vh.TraceFile, label string) {
+// mode = "read": the callers are blocked in Read and a unit of the resource is a message from the peer; "write": the callers are
+// blocked in Write behind a full send window (the network is cut, nothing is ever acknowledged) and a unit of the resource is one
+// more slot of send window. errBy = "fail": the socket error of the script is a failing transport; "lclose": the listener, which
+// owns its transport as the ones made by ListenWithOptions do, is closed by the application (server side only).
+func runScript(t *testing.T, s wscript, side, mode, errBy string, sum *summary, tf *vh.TraceFile, label string) {
 	vh.Bubble(t, 12345, 2, func(e *vh.Env) {
 		tr := &vh.Trace{}
 		lc, _ := e.Hub.Listen("10.0.0.1:1000")
 		cc, _ := e.Hub.Listen("10.0.0.2:2000")
-		l, err := kcp.ServeConn(nil, 0, 0, lc)
+		fd, fp := 0, 0
+		if mode == "write" {
+			fd, fp = 1, 1 // FEC on: an out-of-band message is the harness' way to make the session use its socket at once
+		}
+		var l *kcp.Listener
+		var err error
+		if errBy == "lclose" {
+			l, err = kcp.VerifServeConnOwned(nil, fd, fp, lc)
+		} else {
+			l, err = kcp.ServeConn(nil, fd, fp, lc)
+		}
 		vh.Must(err)
-		cli, err := kcp.NewConn3(5, lc.LocalAddr(), nil, 0, 0, cc)
+		cli, err := kcp.NewConn3(5, lc.LocalAddr(), nil, fd, fp, cc)
 		vh.Must(err)
 		cli.Write([]byte("hello")) // creates the server-side session
 		srv, err := l.AcceptKCP()
@@ -116,7 +130,23 @@ func runScript(t *testing.T, s wscript, side string, sum *summary, tf *vh.TraceF
 			R, P = srv, cli
 			rconn = lc
 		}
+		P.SetNoDelay(1, 10, 2, 1) // no congestion window at the peer: messages written at one instant arrive at that instant
 		synctest.Wait()
+		wnd := 1
+		if mode == "write" {
+			time.Sleep(2 * time.Second) // everything sent so far is acknowledged
+			synctest.Wait()
+			e.Hub.SetPolicy(func(d *simnet.Dgram) simnet.Fate { return simnet.Fate{} }) // the network is cut
+			R.SetWindowSize(wnd, 32)
+			R.Write([]byte{0}) // fills the window: one segment, never acknowledged
+			synctest.Wait()
+		}
+		// the socket is used at once (an error on it is only noticed when something is sent)
+		poke := func() {
+			if mode == "write" {
+				R.SendOOB([]byte{1})
+			}
+		}
 		start := time.Now()
 		nowU := func() int { return int(time.Since(start) / unit) }
 		results := make(chan result, 16)
@@ -152,19 +182,33 @@ func runScript(t *testing.T, s wscript, side string, sum *summary, tf *vh.TraceF
 				}
 				tr.Add(map[string]any{"ev": "start", "x": x})
 				go func() {
-					b := make([]byte, 4096)
-					_, err := R.Read(b)
+					var err error
+					if mode == "write" {
+						_, err = R.Write([]byte{2})
+					} else {
+						b := make([]byte, 4096)
+						_, err = R.Read(b)
+					}
 					results <- result{x, kindOf(err), nowU()}
 				}()
 			case "arrive":
 				tr.Add(map[string]any{"ev": "arrive"})
-				P.Write([]byte("one message"))
+				if mode == "write" {
+					wnd++
+					R.SetWindowSize(wnd, 32) // one more slot; update() tells the blocked writers within one interval
+				} else {
+					P.Write([]byte("one message"))
+				}
 			case "setdl":
 				tr.Add(map[string]any{"ev": "setdl", "v": st.V})
+				setdl := R.SetReadDeadline
+				if mode == "write" {
+					setdl = R.SetWriteDeadline
+				}
 				if st.V == 0 {
-					R.SetReadDeadline(time.Time{})
+					setdl(time.Time{})
 				} else {
-					R.SetReadDeadline(start.Add(time.Duration(st.V) * unit))
+					setdl(start.Add(time.Duration(st.V) * unit))
 				}
 				dl, dlat = st.V, nowU()
 			case "close":
@@ -173,7 +217,15 @@ func runScript(t *testing.T, s wscript, side string, sum *summary, tf *vh.TraceF
 				closed = true
 			case "sockerr":
 				tr.Add(map[string]any{"ev": "sockerr"})
-				rconn.FailReads(errors.New("simulated socket error"))
+				switch {
+				case errBy == "lclose":
+					l.Close() // closes the transport it owns: the listener's receive loop fails and tells every session
+				case mode == "write":
+					rconn.FailWrites(errors.New("simulated socket error"))
+				default:
+					rconn.FailReads(errors.New("simulated socket error"))
+				}
+				poke()
 				serr = true
 			case "tick":
 				synctest.Wait()
@@ -182,9 +234,20 @@ func runScript(t *testing.T, s wscript, side string, sum *summary, tf *vh.TraceF
 			}
 			harvest()
 		}
-		// calls still blocked at the end of the script
+		// calls still blocked at the end of the script (write side: the periodic update() has told the writers about a window
+		// that opened at this instant before half a time unit has passed)
+		if mode == "write" {
+			time.Sleep(unit / 2)
+		}
 		harvest()
 		avail := len(R.VerifKCPState().RcvQueue)
+		if mode == "write" {
+			st := R.VerifKCPState()
+			avail = int(st.SndWnd) - len(st.SndBuf) - len(st.SndQueue)
+			if avail < 0 {
+				avail = 0
+			}
+		}
 		for x := range started {
 			_ = x
 		}
@@ -221,7 +284,8 @@ func runScript(t *testing.T, s wscript, side string, sum *summary, tf *vh.TraceF
 			<-results
 			inflight--
 		}
-		tf.WriteTrace(map[string]any{"src": label, "side": side, "callers": s.Callers}, tr)
+		tf.WriteTrace(map[string]any{"src": label, "side": side, "mode": mode, "errby": errBy, "callers": s.Callers}, tr)
+		sum.Kinds[mode+"-"+side+"-"+errBy]++
 		sum.Scripts++
 		sum.Nontrivial++
 	})
@@ -239,18 +303,15 @@ func TestWaitScripts(t *testing.T) {
 	vh.Must(err)
 	sum := &summary{Kinds: map[string]int{}}
 	for i, s := range scripts {
+		// every script runs on one of: {dialled, accepted} x {blocked in Read, blocked in Write}; on the accepted side every other
+		// script with a socket error realises it as the application closing a listener that owns its transport
 		side := []string{"client", "server"}[i%2]
-		hasErr := false
-		for _, st := range s.Steps {
-			if st.Ev == "sockerr" {
-				hasErr = true
-			}
+		mode := []string{"read", "write"}[(i/2)%2]
+		errBy := "fail"
+		if side == "server" && (i/4)%2 == 1 {
+			errBy = "lclose"
 		}
-		if hasErr && side == "server" {
-			// a socket error on the listener's transport reaches accepted sessions through the listener
-			side = "server"
-		}
-		runScript(t, s, side, sum, tf, fmt.Sprintf("%s#%d", s.Src, i))
+		runScript(t, s, side, mode, errBy, sum, tf, fmt.Sprintf("%s#%d", s.Src, i))
 	}
 	vh.Must(tf.Close())
 	sum.Traces, sum.Lines = tf.N, tf.L
